@@ -498,6 +498,7 @@ func init() {
 				}
 				runVals(k, vals, 0)
 				c16Positions(c, 9000, k, k.boundaries(1))
+				c16StoreWidth(c, 9050, k)
 				c16StreamBoundary(c, 9100, k, []*big.Int{k.max(), k.min(), new(big.Int).Quo(k.max(), big.NewInt(3)), new(big.Int).Quo(k.min(), big.NewInt(7)), big.NewInt(10), big.NewInt(-10), big.NewInt(99)})
 				c.Sample(map[string]any{"family": "boundary/exhaustive", "kind": k.name, "values": len(vals), "first": vals[0].String(), "last": vals[len(vals)-1].String()})
 			case c.Idx < 22:
@@ -800,6 +801,85 @@ func c16Positions(c *rt.Ctx, sub int, k intKind, vals []*big.Int) {
 	}
 	c.Obs("member_position_values:"+k.name, int64(len(vals)))
 	c.Obs("member_position_types", int64(len(types)))
+}
+
+// c16StoreWidth: the store a decoder makes has the width of the destination kind - the bytes
+// directly behind an integer member, element or key belong to someone else. Guard bytes (not part of
+// the document) follow the destination in memory; plain and ,string members, array elements, through
+// Unmarshal and a Decoder.
+func c16StoreWidth(c *rt.Ctx, sub int, k intKind) {
+	if !c.Cur(sub, fmt.Sprintf("store width %s", k.name)) {
+		return
+	}
+	guard := reflect.StructField{Name: "G", Type: reflect.TypeOf([9]uint8{}), Tag: `json:"-"`}
+	types := []reflect.Type{
+		reflect.StructOf([]reflect.StructField{{Name: "V", Type: k.t, Tag: `json:"v"`}, guard}),
+		reflect.StructOf([]reflect.StructField{{Name: "V", Type: k.t, Tag: `json:"v,string"`}, guard}),
+		reflect.StructOf([]reflect.StructField{{Name: "A", Type: reflect.TypeOf(uint8(0)), Tag: `json:"-"`}, {Name: "V", Type: k.t, Tag: `json:"v"`}, guard}),
+		reflect.StructOf([]reflect.StructField{{Name: "V", Type: reflect.ArrayOf(1, k.t), Tag: `json:"v"`}, guard}),
+		reflect.StructOf([]reflect.StructField{{Name: "V", Type: reflect.ArrayOf(3, k.t), Tag: `json:"v"`}, guard}),
+	}
+	vals := []*big.Int{k.min(), k.max(), big.NewInt(1), big.NewInt(0)}
+	if k.signed {
+		vals = append(vals, big.NewInt(-1))
+	}
+	for ti, t := range types {
+		for _, b := range vals {
+			lit := b.String()
+			var doc string
+			switch ti {
+			case 1:
+				doc = `{"v":"` + lit + `"}`
+			case 3:
+				doc = `{"v":[` + lit + `]}`
+			case 4:
+				doc = `{"v":[0,0,` + lit + `]}`
+			default:
+				doc = `{"v":` + lit + `}`
+			}
+			for _, stream := range []bool{false, true} {
+				dst := reflect.New(t)
+				g := dst.Elem().FieldByName("G")
+				for i := 0; i < g.Len(); i++ {
+					g.Index(i).SetUint(0xA5)
+				}
+				if a := dst.Elem().FieldByName("A"); a.IsValid() {
+					a.SetUint(0x5A)
+				}
+				var err error
+				pan, msg, _ := rt.Guard(func() {
+					if stream {
+						err = gojson.NewDecoder(strings.NewReader(doc)).Decode(dst.Interface())
+					} else {
+						err = gojson.Unmarshal([]byte(doc), dst.Interface())
+					}
+				})
+				c.Eval(1)
+				bad := ""
+				for i := 0; i < g.Len(); i++ {
+					if g.Index(i).Uint() != 0xA5 {
+						bad = fmt.Sprintf("guard byte %d behind the destination is %#x", i, g.Index(i).Uint())
+						break
+					}
+				}
+				if a := dst.Elem().FieldByName("A"); bad == "" && a.IsValid() && a.Uint() != 0x5A {
+					bad = fmt.Sprintf("the byte in front of the destination is %#x", a.Uint())
+				}
+				v := dst.Elem().FieldByName("V")
+				if v.Kind() == reflect.Array {
+					v = v.Index(v.Len() - 1)
+				}
+				if bad == "" && !pan && err == nil && intText(v) != lit {
+					bad = "stored " + intText(v)
+				}
+				if pan || err != nil || bad != "" {
+					c.Violate(rt.Violation{Monitor: "int-decode", Entry: "Unmarshal", Kind: "store-width", Ctx: k.name + ":" + []string{"member", "string-member", "member-behind-byte", "array1", "array3"}[ti] + ":" + magClass(b, k),
+						Detail: fmt.Sprintf("%s into %s (stream=%v): %s err=%v panic=%v %s", doc, t, stream, bad, err, pan, msg), Input: lit, Sub: sub})
+				}
+			}
+		}
+	}
+	c.Obs("store_width_decodes:"+k.name, int64(len(types)*len(vals)*2))
 }
 
 // c16StreamBoundary: an integer literal that straddles the end of the stream decoder's buffer (511,
